@@ -434,6 +434,13 @@ fn dirty_suffix_check(v: &(Stream, Stream, Vec<(u16, u8)>, u32), rep: &mut Rep) 
     }
     let mut whole = penc.bytes.clone();
     whole.extend_from_slice(&s);
+    // the last bytes of the messages in front and the first bytes of the suffix may form a marker between them: then the
+    // stream is not "whole messages, then the suffix" any more (the marker belongs to neither)
+    let pl = penc.bytes.len();
+    if (1..=3usize).any(|j| pl >= j && whole.len() >= pl - j + 4 && (whole[pl - j..pl - j + 4] == STORAGE_MARKER || whole[pl - j..pl - j + 4] == SERIAL_MARKER)) {
+        rep.label("marker_across_the_junction");
+        return Ok(());
+    }
     if !suffix.serial && (f04_class(&s) || f04_class(&whole)) {
         rep.known = Some("F04");
         return Ok(());
